@@ -183,6 +183,10 @@ class Run(object):
                 self.ctl["cancel_req"] = True
             elif status in ("running", "resuming"):
                 self.ctl["pause_req"] = False
+                if ev["pre"]["status"] == "pausing":
+                    # resumed before the workflow came to rest: a with-items task that was told to pause
+                    # stays pausing and takes the workflow back to paused once its items have reported
+                    self.ctl["resumed_before_rest"] = True
         self.trace.append(("req", status, "ok" if ok else type(ev["exc"]).__name__, ev["post"]["status"]))
         self._log_op(["req", status], extra=type(ev["exc"]).__name__ if ev["exc"] is not None else None)
         return ev
